@@ -231,6 +231,7 @@ struct Shared {               // created by the main thread before the workers s
     ascon_masked_key_128_t mk128;
     ascon_masked_key_160_t mk160;
     uint8_t key[20], nonce[16], ad[64], msg[256];
+    uint8_t saved128a[ASCON_ISAP_SAVED_KEY_SIZE];
 };
 
 struct ThreadCtx {
@@ -249,9 +250,10 @@ struct ThreadCtx {
 
 #define LIB(x) do { ++t_in_lib; x; --t_in_lib; } while (0)
 
-static const int NOPK = 18;
+static const int NOPK = 22;
 static const char *opk_name[NOPK] = {"hash", "hasha", "xof", "aead128", "aead128a", "aead80pq", "inc128", "siv128", "siv80pq", "isap128_shared",
-                                     "isap128a_shared", "isap80pq_shared", "masked128_shared", "masked80pq_shared", "prf_hmac", "kmac_hkdf", "random", "prng"};
+                                     "isap128a_shared", "isap80pq_shared", "masked128_shared", "masked80pq_shared", "prf_hmac", "kmac_hkdf", "random", "prng",
+                                     "cpp_aead", "cpp_isap_saved_key", "cpp_hash_xof", "cpp_siv_masked"};
 
 static uint64_t run_op(ThreadCtx &T, const Op &op)
 {
@@ -289,7 +291,34 @@ static uint64_t run_op(ThreadCtx &T, const Op &op)
     case 14: LIB(ascon_prf(T.out, 24, m, mlen, k); ascon_hmac(T.out + 24, k, 20, m, mlen); r = ascon_mac_verify(T.out, m, mlen, k)); clen = 56; break;
     case 15: LIB(ascon_kmac(k, 16, m, mlen, a, adlen, T.out, 32); r = ascon_hkdf(T.out + 32, 40, k, 20, a, adlen, m, mlen % 20); ascon_kdf(T.out + 72, 16, k, 16, a, adlen % 9)); clen = 88; break;
     case 16: LIB(r = ascon_random(T.out, 32 + mlen % 32)); clen = 32 + mlen % 32; break;
-    default: LIB(ascon_random_init(&T.prng); ascon_random_feed(&T.prng, m, mlen % 24); ascon_random_fetch(&T.prng, T.out, 48); ascon_random_free(&T.prng)); clen = 48; break;
+    case 17: LIB(ascon_random_init(&T.prng); ascon_random_feed(&T.prng, m, mlen % 24); ascon_random_fetch(&T.prng, T.out, 48); ascon_random_free(&T.prng)); clen = 48; break;
+    // C++ wrappers (built with clang++ and the same callbacks); raw-pointer overloads only, so that the
+    // library never allocates and address reuse through malloc cannot fake a race
+    case 18: {
+        ++t_in_lib;
+        { ascon::aead128 e(k); e.set_nonce(n, 16); r = e.encrypt(T.out, m, mlen, a, adlen); clen = (size_t)r;
+          ascon::aead128 d; d.set_key(k, 16); d.set_counter(7); d.set_nonce(n, 16); r = d.decrypt(T.tmp, T.out, clen, a, adlen); plen = r < 0 ? 0 : (size_t)r; }
+        --t_in_lib;
+        break; }
+    case 19: {
+        ++t_in_lib;
+        { ascon::isap128a e(S.saved128a, ASCON_ISAP_SAVED_KEY_SIZE); e.set_nonce(n, 16); r = e.encrypt(T.out, m, mlen, a, adlen); clen = (size_t)r;
+          ascon::isap128a d; d.set_key(S.saved128a, ASCON_ISAP_SAVED_KEY_SIZE); d.set_nonce(n, 16); r = d.decrypt(T.tmp, T.out, clen, a, adlen); plen = r < 0 ? 0 : (size_t)r; }
+        --t_in_lib;
+        break; }
+    case 20: {
+        ++t_in_lib;
+        { ascon::hash h; h.update(m, mlen); h.finalize(T.out); ascon::xofa x; x.absorb(a, adlen); x.absorb(m, mlen); x.squeeze(T.out + 32, 24);
+          ascon::hasha h2; h2.update(m, mlen / 2); ascon::hasha h3(h2); h3.update(m + mlen / 2, mlen - mlen / 2); h3.finalize(T.out + 56); }
+        --t_in_lib;
+        clen = 88;
+        break; }
+    default: {
+        ++t_in_lib;
+        { ascon::siv80pq e(k); e.set_nonce(n, 16); r = e.encrypt(T.out, m, mlen, a, adlen); clen = (size_t)r;
+          ascon::aead128a_masked d(k); d.set_nonce(n, 16); r = d.encrypt(T.tmp, m, mlen, a, adlen); plen = (size_t)r; }
+        --t_in_lib;
+        break; }
     }
     uint64_t h = fnv(T.out, std::min<size_t>(clen, sizeof T.out));
     h = fnv(&r, sizeof r, h);
@@ -380,6 +409,7 @@ struct ThreadsWorld : World {
         ascon128_isap_aead_init(&sh->ik128, sh->key);
         ascon128a_isap_aead_init(&sh->ik128a, sh->key);
         ascon80pq_isap_aead_init(&sh->ik80, sh->key);
+        ascon128a_isap_aead_save_key(&sh->ik128a, sh->saved128a);
         ascon_masked_key_128_init(&sh->mk128, sh->key);
         ascon_masked_key_160_init(&sh->mk160, sh->key);
         std::vector<ThreadCtx *> T;
